@@ -7,7 +7,7 @@ export GOFLAGS=-mod=mod GOPROXY=off GOSUMDB=off GOTOOLCHAIN=local
 WT=/tmp/cs/wt-$NAME
 git -C /repo worktree remove --force $WT >/dev/null 2>&1
 git -C /repo worktree add --detach $WT HEAD >/dev/null 2>&1 || { echo "worktree failed"; exit 2; }
-cd $WT
+cd $WT; mkdir -p tun/client/ui/build; echo placeholder > tun/client/ui/build/index.html
 cp $DEMO $PKG/
 echo "--- demo without change"; go1.26.8 test -vet=off -count=1 -run "$RUN" ./$PKG/ 2>&1 | tail -3; R1=${PIPESTATUS[0]}
 rm $PKG/$(basename $DEMO)
